@@ -38,7 +38,7 @@ class Argument(object):
         if not name[:1].isalpha():
             raise ValueError("The argument name must start with a letter")
 
-        if not re.match(r"^[a-zA-Z0-9\-]+$", name):
+        if not re.match(r"^[a-zA-Z0-9\-]+\Z", name):
             raise ValueError(
                 "The argument name must contain letters, digits and hyphens only."
             )
